@@ -154,10 +154,13 @@ func (st *State) assume(t string) {
 	if t == "true" || t == "" {
 		return
 	}
-	st.assumes = st.assumes.push(t)
 	if st.known == nil {
 		st.known = map[string]bool{}
 	}
+	if v, ok := st.known[t]; ok && v {
+		return
+	}
+	st.assumes = st.assumes.push(t)
 	if strings.HasPrefix(t, "(not ") {
 		st.known[t[5:len(t)-1]] = false
 	} else {
